@@ -771,13 +771,13 @@ var profiles = map[string]profile{
 	// verdicts + refusal no-op
 	"C08": {mask: 1 | 64, dupes: 10, orphans: 10, clean: 2},
 	// lookups
-	"C09": {mask: 8, clean: 6, save: 2, load: 3, dupes: 2, orphans: 3},
+	"C09": {mask: 8, clean: 6, save: 2, load: 3, mark: 2, dupes: 2, orphans: 3},
 	// clean changes nothing (attributed through a clean-free control)
 	"C10": {mask: 1 | 4 | 8, clean: 12, dupes: 2, orphans: 2, twinDrop: "clean"},
 	// save+load restores (attributed through a control without save/load)
-	"C11": {mask: 1 | 4 | 8 | 16, clean: 4, save: 3, load: 8, dupes: 2, orphans: 2, twinDrop: "save,load"},
+	"C11": {mask: 1 | 4 | 8 | 16, clean: 4, save: 3, load: 8, mark: 3, dupes: 2, orphans: 2, twinDrop: "save,load"},
 	// invalid marking
-	"C17": {mask: 1 | 4 | 8, mark: 8, save: 1, load: 2, dupes: 3, orphans: 2},
+	"C17": {mask: 1 | 4 | 8, mark: 8, clean: 3, save: 1, load: 2, dupes: 3, orphans: 2},
 	// crash points of Clean / Save (no loads inside the history: every crash point loads a fresh repository)
 	// (no invalid marking either: a mark is not persisted until the next Clean / Save, so a crash
 	// legitimately brings invalidated headers back; that is C17's persistence clause, not C12)
@@ -791,6 +791,113 @@ var profiles = map[string]profile{
 // genOvertake builds the "fork overtakes after maintenance" scenario: a main chain, several forks at
 // different depths created in random order, more main chain, a maintenance op with a small
 // depth, then one of the forks is extended (heavier bits) until it overtakes; observe throughout.
+// genMarkedMain builds "the main chain above a fork point is invalidated": a main chain, a short
+// fork a few headers below the tip, the main header right above the fork point is marked invalid
+// (so the fork becomes the best chain and nothing pins the memory horizon), the fork grows beyond
+// the prune depth, maintenance with a small depth, observe throughout.
+func genMarkedMain(r *coqfmt.Rand, id int, pf profile) Case {
+	c := Case{ID: id, Mask: pf.mask, Twin: -1, Note: "main-invalidated-above-fork"}
+	c.MaxDepth = []int{5, 144, 144}[r.Intn(3)]
+	t0 := uint32(1231006505)
+	c.Hdrs = make([]PlanHdr, 1)
+	height := []int{0}
+	add := func(p int, bits uint32) int {
+		c.Hdrs = append(c.Hdrs, PlanHdr{P: p, Bits: bits, T: t0 + uint32(600*(height[p]+1)) + uint32(r.Intn(500))})
+		height = append(height, height[p]+1)
+		return len(c.Hdrs) - 1
+	}
+	obs := func(op Op) { c.Ops = append(c.Ops, op, Op{K: "observe"}) }
+	c.Ops = append(c.Ops, Op{K: "observe"})
+	main := []int{0}
+	for i := 3 + r.Intn(5); i > 0; i-- {
+		main = append(main, add(main[len(main)-1], 0x1d00ffff))
+		obs(Op{K: "submit", I: main[len(main)-1]})
+	}
+	at := len(main) - 1 - (1 + r.Intn(3)) // fork point on main
+	if at < 1 {
+		at = 1
+	}
+	tip := add(main[at], 0x1d00ffff)
+	obs(Op{K: "submit", I: tip})
+	for k := r.Intn(2); k > 0; k-- {
+		tip = add(tip, 0x1d00ffff)
+		obs(Op{K: "submit", I: tip})
+	}
+	obs(Op{K: "mark", I: main[at+1]})
+	d := []int{1, 2, 3, 5}[r.Intn(4)]
+	for i := d + 2 + r.Intn(4); i > 0; i-- {
+		tip = add(tip, 0x1d00ffff)
+		obs(Op{K: "submit", I: tip})
+	}
+	switch {
+	case pf.clean > 0:
+		obs(Op{K: "clean", D: d})
+	case pf.save > 0 && pf.load > 0:
+		c.Ops = append(c.Ops, Op{K: "save"})
+		obs(Op{K: "load", D: d + c.MaxDepth})
+	}
+	for i := r.Intn(3); i > 0; i-- {
+		tip = add(tip, 0x1d00ffff)
+		obs(Op{K: "submit", I: tip})
+	}
+	if pf.clean > 0 && r.Chance(1, 2) {
+		obs(Op{K: "clean", D: d})
+	}
+	return c
+}
+
+// genMarkCycle builds "marked, un-marked, persisted, reloaded, offered again": a chain with a
+// fork, one header is marked invalid and (usually) un-marked again, the state is persisted by a
+// Save or a Clean, a fresh repository loads it, and the header and its descendants are offered
+// again.
+func genMarkCycle(r *coqfmt.Rand, id int, pf profile) Case {
+	c := Case{ID: id, Mask: pf.mask, Twin: -1, Note: "mark-unmark-persist-reload"}
+	c.MaxDepth = 144
+	t0 := uint32(1231006505)
+	c.Hdrs = make([]PlanHdr, 1)
+	height := []int{0}
+	add := func(p int, bits uint32) int {
+		c.Hdrs = append(c.Hdrs, PlanHdr{P: p, Bits: bits, T: t0 + uint32(600*(height[p]+1)) + uint32(r.Intn(500))})
+		height = append(height, height[p]+1)
+		return len(c.Hdrs) - 1
+	}
+	obs := func(op Op) { c.Ops = append(c.Ops, op, Op{K: "observe"}) }
+	c.Ops = append(c.Ops, Op{K: "observe"})
+	main := []int{0}
+	for i := 4 + r.Intn(5); i > 0; i-- {
+		main = append(main, add(main[len(main)-1], 0x1d00ffff))
+		obs(Op{K: "submit", I: main[len(main)-1]})
+	}
+	side := add(main[1+r.Intn(len(main)-2)], 0x1d00ffff)
+	obs(Op{K: "submit", I: side})
+	if r.Chance(1, 2) {
+		c.Ops = append(c.Ops, Op{K: "save"})
+	}
+	x := 2 + r.Intn(len(main)-2) // position on main of the header to mark (not the first one)
+	obs(Op{K: "mark", I: main[x]})
+	if r.Chance(1, 2) {
+		obs(Op{K: "clean", D: 10000})
+	}
+	unmarked := r.Chance(3, 4)
+	if unmarked {
+		obs(Op{K: "unmark", I: main[x]})
+	}
+	if r.Chance(1, 2) {
+		obs(Op{K: "clean", D: 10000})
+	}
+	c.Ops = append(c.Ops, Op{K: "save"})
+	obs(Op{K: "load", D: 10000})
+	for i := x; i < len(main); i++ {
+		obs(Op{K: "submit", I: main[i]})
+	}
+	if r.Chance(1, 2) {
+		c.Ops = append(c.Ops, Op{K: "save"})
+		obs(Op{K: "load", D: 10000})
+		obs(Op{K: "submit", I: main[x]})
+	}
+	return c
+}
+
 func genOvertake(r *coqfmt.Rand, id int, pf profile) Case {
 	c := Case{ID: id, Mask: pf.mask, Twin: -1, Note: "overtake-after-maintenance"}
 	c.MaxDepth = []int{3, 5, 144, 144}[r.Intn(4)]
@@ -870,6 +977,12 @@ func genOvertake(r *coqfmt.Rand, id int, pf profile) Case {
 func genCase(r *coqfmt.Rand, id int, pf profile, size int) Case {
 	if pf.clean+pf.save+pf.load > 0 && r.Chance(1, 4) {
 		return genOvertake(r, id, pf)
+	}
+	if pf.mark > 0 && pf.clean+pf.load > 0 && r.Chance(1, 8) {
+		return genMarkedMain(r, id, pf)
+	}
+	if pf.mark > 0 && pf.save > 0 && pf.load > 0 && r.Chance(1, 10) {
+		return genMarkCycle(r, id, pf)
 	}
 	c := Case{ID: id, Mask: pf.mask, Twin: -1}
 	c.MaxDepth = []int{0, 1, 2, 3, 5, 144, 144}[r.Intn(7)]
